@@ -95,7 +95,7 @@ def generate(seed, tier="quick"):
         splits.append({"cuts": cs, "transport": [o.choice(["asis", "pickle", "numpy"]) for _ in cs],
                        "ckpt": [_ckpt(o, s) for s in segs], "jit": [o.random() < 0.2 for _ in segs],
                        "persist": o.choice([None, None, "pickle", "deepcopy"]), "reuse_checkpoint": o.random() < 0.4})
-    return {"prop": PROPERTY, "shape": shape, "ops": ops, "N": N, "dt": o.choice(DTS), "feed": mode, "stims": stims, "clamp": clamp,
+    return {"prop": PROPERTY, "shape": shape, "ops": ops, "N": N, "dt": o.choice(DTS), "feed": mode, "stims": stims, "clamp": clamp, "tmax_cut": o.random() < 0.5,
             "solver": o.choice(["bwd_euler", "bwd_euler", "crank_nicolson"]),
             "vsolver": o.choice(["jaxley.stone", "jaxley.thomas", "jax.sparse"]),
             "ref_ckpt": _ckpt(o, N), "manual": o.random() < 0.5, "splits": splits, "pseed": o.randrange(1 << 30), "use_params": o.random() < 0.8, "manual_plain": o.random() < 0.3}
@@ -118,6 +118,9 @@ class Feed:
         ref = w.ref
         self.mode = program["feed"]
         N = program["N"]
+        self.N = N
+        # static inputs left at their full remaining length and the segment cut out of them with t_max (the usual way)
+        self.tmax_cut = bool(program.get("tmax_cut"))
         self.stims = []
         for s in program["stims"]:
             t = s["target"] % ref.n
@@ -148,6 +151,9 @@ class Feed:
         if self.mode == "none":
             return {"steps": b - a}
         if self.mode == "static":
+            if self.tmax_cut:
+                self.install_static(m, a, self.N)
+                return {"steps": b - a}
             self.install_static(m, a, b)
             return {}
         ds = None
@@ -479,6 +485,7 @@ def _f6_signature(w, feed, base_kw, seg, ckpt, states):
         f2.stims = [(t, np.concatenate([arr[a:b], np.zeros(pad)])) for t, arr in feed.stims]
         f2.clamp = None if feed.clamp is None else (feed.clamp[0], feed.clamp[1], np.concatenate([feed.clamp[2][a:b], np.zeros(pad)]))
         f2.mode = feed.mode
+        f2.tmax_cut = False
         kw = dict(base_kw, ckpt=None, mode="eager", all_states=start, return_states=True)
         kw.update(f2.kwargs(w.m, 0, P) if feed.mode != "none" else {"steps": P})
         _, s_long = simrun.integrate(w.m, **kw)
